@@ -31,6 +31,20 @@ def check(ctx):
     ctx.floor('R2', 3)
     ctx.floor('R3', 5)
     ctx.floor('R4', 3)
+    ctx.include('C03', 'E', only=('R4',))   # states_prev / states_next are the forward / backward fill of the outer states
+    # coordinates are read through the mode-normalising accessors
+    seen = set()
+    for it_ in ctx.package_scan():
+        for e in it_.events:
+            if e['tag'] == 'attr_read' and e['attr'] == 'coords' and e['where'] is not None and e['where'].module.name == 'gemdat.rdf' \
+                    and e['obj'].cls == 'gemdat.trajectory.Trajectory' and id(e['node']) not in seen:
+                seen.add(id(e['node']))
+                v = e['value']
+                gs = ({v.geo} if v is not None and v.geo is not None else set()) | (set(v.geo_conflict) if v is not None and v.geo_conflict else set())
+                ok = bool(gs) and all(g[0] == 'FRAC' and g[1] in ('W', 'C') for g in gs)
+                ctx.ob('R4', e['where'], e['node'], ok, 'storage of a freshly built position-mode trajectory' if ok else
+                       'raw .coords is read: after any query that switched the trajectory to displacement storage (distances, metrics) the '
+                       'distances are measured to displacement vectors instead of positions')
     check_lookup(ctx)
     check_codec(ctx)
     check_lengths(ctx)
